@@ -274,7 +274,8 @@ type call struct {
 }
 
 type inst struct {
-	cfg *Config
+	cfg       *Config
+	freeState // free-running pass only (free.go)
 
 	bus    pubsub.Bus
 	svc    pmanifest.Service
@@ -334,7 +335,11 @@ func newInst(cfg *Config) *inst {
 	return in
 }
 
-func (in *inst) logG(g string, e entry) { in.glog[g] = append(in.glog[g], e) }
+func (in *inst) logG(g string, e entry) {
+	in.lock()
+	in.glog[g] = append(in.glog[g], e)
+	in.unlock()
+}
 
 func errName(err error) string {
 	switch {
@@ -508,17 +513,24 @@ func (q *scriptedQuery) Group(_ context.Context, req *dtypes.QueryGroupRequest, 
 	return nil, errors.New("scripted: no such group")
 }
 
-func (in *inst) newCall(kind string) *call {
+func (in *inst) newCall(kind string, hostch ...chan error) *call {
+	in.lock()
+	defer in.unlock()
 	g := vs.ID()
 	key := kind + "@" + g
 	n := in.ncalls[key]
 	in.ncalls[key] = n + 1
 	c := &call{kind: kind, id: fmt.Sprintf("%s.%d", key, n), release: make(chan result, 1)}
+	if len(hostch) > 0 {
+		c.hostch = hostch[0]
+	}
 	in.pending = append(in.pending, c)
 	return c
 }
 
 func (in *inst) dropCall(c *call) {
+	in.lock()
+	defer in.unlock()
 	for i, p := range in.pending {
 		if p == c {
 			in.pending = append(in.pending[:i:i], in.pending[i+1:]...)
@@ -571,8 +583,7 @@ func (h *scriptedHostnames) CanReserveHostnames(hosts []string, did dtypes.Deplo
 		vs.Chan(ch).Send(nil)
 		return ch
 	}
-	c := in.newCall("host")
-	c.hostch = ch
+	in.newCall("host", ch) // (hostch is set before the call becomes visible to the environment)
 	return ch
 }
 
@@ -587,6 +598,9 @@ func (in *inst) body() {
 	cfg := pmanifest.ServiceConfig{}
 	if in.cfg.Watchdog {
 		cfg.ManifestTimeout = 5 * time.Minute
+		if in.free {
+			cfg.ManifestTimeout = 300 * time.Microsecond // free-running: a real timer, let it fire
+		}
 	}
 	svc, err := pmanifest.NewService(ctx, &scriptedSession{in}, &tapBus{Bus: in.bus, in: in}, &scriptedHostnames{in}, cfg)
 	if err != nil {
@@ -596,6 +610,9 @@ func (in *inst) body() {
 	}
 	in.svc = svc
 	in.submitChan = pmanifest.VerifC20SubmitChan(svc)
+	if in.free {
+		return // runFree drives the environment itself (free.go)
+	}
 	vs.GoEnv(in.environment)
 }
 
@@ -659,7 +676,7 @@ func (in *inst) menu() []action {
 				f = func() {
 					c := in.clients[e]
 					c.started = true
-					vs.Go(func() { in.client(c) })
+					in.goClient(func() { in.client(c) })
 				}
 			case evUpdate:
 				f = func() { in.update("B") }
@@ -684,7 +701,9 @@ func (in *inst) menu() []action {
 			m = append(m, action{id: evQuit, fire: func() { in.quit = true }})
 		}
 	}
+	in.lock()
 	calls := append([]*call(nil), in.pending...)
+	in.unlock()
 	sort.Slice(calls, func(i, j int) bool { return calls[i].id < calls[j].id })
 	for _, c := range calls {
 		c := c
@@ -1411,3 +1430,5 @@ func factory(cfg *Config) vs.Factory {
 		return vs.Exec{Body: in.body, Check: in.check}
 	}
 }
+
+func goManagedClient(f func()) { vs.Go(f) }
